@@ -187,5 +187,39 @@ pub fn generate(prop: &str, seed: u64, idx: u64, tier: Tier) -> Plan {
             p.heal_at_ms = p.heal_at_ms.max(last + 6000);
         }
     }
+    // C13: in 10 % of the runs one channel is closed by an application at some instant (possibly while the association
+    // is still being set up): what close_data_channel() puts on the wire is subject to the sender rules too
+    if prop == "C13" {
+        let mut rs = Rng::new(mix(mix(seed, idx), 0x636c_6f73_655f_6368));
+        if rs.chance(10) {
+            let nch = p.knob("nch", 1).max(1) as u64;
+            p.ops.push(Op::new(rs.below(6000), "close_ch", &[rs.below(2) as i64, rs.below(nch) as i64]));
+            p.ops.sort_by_key(|o| o.at_ms);
+        }
+    }
+    // knob early_send (drawn from its own stream, so that every other choice of the plan stays what it was): in a quarter
+    // of the C12 / C01 runs the creator of an in-band channel sends as soon as the association takes data instead of
+    // waiting for its own Open (the peer's DCEP ACK), with some of its messages planned right at the start
+    if prop == "C12" || prop == "C01" {
+        let mut rs = Rng::new(mix(mix(seed, idx), 0x6561_726c_795f_73));
+        if rs.chance(25) {
+            p.knobs.insert("early_send".into(), 1);
+            if rs.chance(60) {
+                // (only sends of the creator on an in-band channel that exists from the start: nothing may be sent on a
+                // pre-negotiated channel before the peer has registered it, nor by the peer before it learnt of the channel)
+                let knobs = p.knobs.clone();
+                let early_ok = |o: &Op| {
+                    let (side, chi) = (o.arg(0) & 1, o.arg(1));
+                    let code = knobs.get(&format!("ch{chi}")).copied().unwrap_or(0);
+                    o.kind == "send" && code & 8 != 0 && ((code & 16 != 0) as i64) == side && !knobs.contains_key(&format!("late{chi}"))
+                };
+                let n = rs.range(1, 4) as usize;
+                for o in p.ops.iter_mut().filter(|o| early_ok(o)).take(n) {
+                    o.at_ms = rs.below(120);
+                }
+                p.ops.sort_by_key(|o| o.at_ms);
+            }
+        }
+    }
     p
 }
